@@ -100,8 +100,10 @@ CHECKS = {
              "and operation history of the bound; every exported maximal history is executed on a real AudioReader over 7 source "
              "kinds (incl. wav files laid out unlike Python's wave module writes them, pipe-like stdin, pre-positioned buffer sources); long seeded "
              "histories with decimal durations, reads before open() and close() on recording readers are judged by TLC (ReaderTrace). Construction "
-             "rejections are a decision table.",
-        ref="DESIGN.md 5/C10, Appendix D", technique="TLA+ model checking (TLC) + spec->code history replay + code->spec trace validation",
+             "rejections are a decision table. The framing closed form (which interval of the visible samples the k-th read returns) is proved for ALL source "
+             "lengths, block / hop sizes, limits and any number of reads by an inductive invariant of the integer abstraction ReaderInt (Apalache); TLC "
+             "checks the abstraction's shape invariant on the concrete registers of Reader (AbsShape).",
+        ref="DESIGN.md 5/C10, Appendix D", technique="TLA+ model checking (TLC) + unbounded inductive invariant (Apalache) + spec->code history replay + code->spec trace validation",
         note=READER_NOTE),
     "C11": dict(
         text="TLC enumerates every transition (state x call x argument) of the abstract audio source for buffer / raw / wav / stdin and "
